@@ -427,7 +427,7 @@ var mandatory = map[string][]string{
 	"C17": {"definition", "binding", "bindings-of-service", "bindings-of-service-and-owner", "pending-requests-of-binding", "earned-fees", "withdraw-address", "request-context", "requests-of-batch", "responses-of-batch", "request", "response", "params", "schema"},
 	"C18": {"context-id", "request-id", "keys-distinct", "scan-exact", "issue-event-position"},
 	"C19": {"prep-returns-escrow", "export-validates", "json-roundtrip", "import-export-identity"},
-	"C20": {"no-panic", "replay-identical", "replay-identical-across-processes", "replay-identical-across-wall-clock"},
+	"C20": {"no-panic", "replay-identical", "replay-identical-across-processes", "replay-identical-across-wall-clock", "app-hash-formed"},
 }
 
 func cmdReplay(args []string) {
